@@ -306,11 +306,13 @@ func init() {
 	register(&PropSpec{
 		ID:        "C05",
 		Level:     "model_checking",
-		Technique: "exhaustive enumeration of the timing of a scripted producer's steps (real STDoutWriter and status rewrites) against the real `work results` reader in a synctest bubble: every monotone placement of the steps and of the request on a 125 ms grid (half the reader's poll period), every start offset; remote mirroring under link cuts and service restarts in a three-node bubble",
-		Rule: "outputs {none (no file), empty file, one chunk, two chunks (thorough: three)} x final state {Succeeded, Failed, Canceled} x every monotone assignment of the producer's steps (create file, write i, final status) to slots 0..4 (thorough 0..5) x request slot 0..5 x start offset 0..size (quick: 0, size/2, size and a third of the others); outputs crossing the 64 KiB read buffer with boundary offsets. " +
+		Technique: "exhaustive enumeration of the timing of a scripted producer's steps (real STDoutWriter and status rewrites) against the real `work results` reader in a synctest bubble: every monotone placement of the steps and of the request on a 125 ms grid (half the reader's poll period), every start offset; remote units: two real daemons joined through a harness-owned TCP relay, the link cut (or the remote daemon killed and restarted) at every position of a time grid while `work results` is asked early or late on the submitting node",
+		Rule: "outputs {none (no file), empty file, one chunk, two chunks (thorough: three)} x final state {Succeeded, Failed, Canceled} x every monotone assignment of the producer's steps (create file, write i, final status) to slots 0..4 (thorough 0..5) x request slot 0..5 x start offset 0..size (quick: 0, size/2, size and a third of the others); outputs crossing the 64 KiB read buffer with boundary offsets; remote: unit {cat, chatty (4 lines, 0.3 s apart)} submitted by n1 to n2, fault {none, link cut for 0.7 s / 3.5 s, n2 killed and restarted after 0.8 s} at 0..3000 ms step 600 (thorough 300) after the acknowledgement x request at 0.1 s / 8 s x offset {0, 7}, with a second request from 0 afterwards; unit ticker (8 lines, 0.5 s apart) with n2 restarted at 600..5400 ms and the link cut for 35 s (longer than the stream's idle limit) so that the mirror must connect again with part of the output stored. " +
 			"Every case is a distinct (output, timing, offset); all non-trivial. Oracle: bytes received = output[offset:], the stream ends, not before the final state was recorded and within 10 virtual seconds after it.",
-		Assumptions: []string{"virtual time: the reader's 250/500 ms polls and the producer's steps interleave on a 125 ms grid; finer phase differences are not explored", "Canceled counts as finished (C13's stage order)"},
+		Assumptions: []string{"remote cases run in real time (one process per case): the grid positions are approximate, no oracle depends on an interval shorter than 60 s", "virtual time: the reader's 250/500 ms polls and the producer's steps interleave on a 125 ms grid; finer phase differences are not explored", "Canceled counts as finished (C13's stage order)"},
 		Run:         runC05,
-		CaseTimeout: 60 * time.Second,
+		Exec:        execC05,
+		Coord:       coordC05,
+		CaseTimeout: 200 * time.Second,
 	})
 }
